@@ -314,6 +314,11 @@ def rule_number_kinds(ck):
 
 
 def rule_region(ck):
+    _rule_region_todict(ck)
+    _rule_region_fromdict(ck)
+
+
+def _rule_region_todict(ck):
     P = ck.prog
     ck.clause('D5')
     t = P.func('csep.core.regions.CartesianGrid2D.to_dict')
@@ -321,6 +326,14 @@ def rule_region(ck):
     r = [x for x in returns(t) if x.value is not None]
     d = ex.expand(r[0].value)
     o = ck.ob('C18-D5.todict', t, 'region to_dict', r[0])
+    # a fresh dictionary at every call: a dictionary kept on the region and handed out again is edited by its first receiver (the usual
+    # way to derive a cut-out or renamed region through from_dict) and the region's own dictionary form changes with it
+    from .common import receiver_writes
+    w = receiver_writes(t)
+    if w:
+        o.fail('to_dict stores on the region (`%s`) and hands out the stored dictionary: an edit of a returned dictionary changes what every '
+               'later to_dict() returns, so from_dict(region.to_dict()) no longer rebuilds the cells of this region' % u(w[0])[:70])
+        return
     if not isinstance(d, ast.Dict):
         o.unknown('not a dict literal')
         return
@@ -358,6 +371,11 @@ def rule_region(ck):
         if 'self.dh' in u(dhv) and u(x) != 'self.dh':
             probs.append('dh is written as `%s`, not as the stored spacing' % u(dhv)[:50])
     (o.fail('; '.join(probs)) if probs else o.ok("{'name','dh','polygons':[{'lat':origin[1],'lon':origin[0]}...],'class_id'}"))
+
+
+def _rule_region_fromdict(ck):
+    P = ck.prog
+    ck.clause('D5')
     f = P.func('csep.core.regions.CartesianGrid2D.from_dict')
     exf = Expander(P, f)
     calls = [n for n in all_nodes(f) if isinstance(n, ast.Call) and isinstance(n.func, ast.Attribute) and n.func.attr == 'from_origins']
@@ -368,6 +386,20 @@ def rule_region(ck):
     c = calls[0]
     org = exf.expand(c.args[0]) if c.args else None
     probs = []
+    # rebuilt from *this* dictionary at every call: what is returned is the from_origins(...) result, not an entry of a table kept on
+    # the class (a memo keyed by name / spacing / size hands the first region to every later dictionary that looks alike)
+    from .common import receiver_writes, is_class_level_mutable
+    shared = [n for n in all_nodes(f) if isinstance(n, ast.Attribute) and isinstance(n.value, ast.Name) and n.value.id in ('cls', 'self')
+              and is_class_level_mutable(f, n.attr)]
+    if shared:
+        probs.append('from_dict keeps regions in the class-level `%s`: a later dictionary with the same key gets the region built from an earlier one'
+                     % shared[0].attr)
+    for r_ in returns(f):
+        rv = exf.expand(r_.value) if r_.value is not None else None
+        alts = phi_alternatives(rv) if rv is not None else []
+        if any(not (isinstance(a_, ast.Call) and isinstance(a_.func, ast.Attribute) and a_.func.attr in ('from_origins',)) and not
+               (isinstance(a_, ast.Call) and u(a_.func) in ('cls',)) for a_ in alts) and not shared:
+            probs.append('from_dict returns `%s`, not the region built by from_origins from its argument' % u(r_.value)[:60])
     txt = u(org) if org is not None else ''
     reorder = [n for n in ast.walk(org) if isinstance(n, ast.Call) and (call_name(n) or '') in (
         'numpy.unique', 'numpy.sort', 'builtins.sorted', 'builtins.set', 'numpy.lexsort', 'numpy.argsort', '.sort', 'builtins.reversed', 'numpy.flip')] if org is not None else []
